@@ -38,7 +38,7 @@ const TOL8: i32 = 8;
 /// float round-trip tolerance of the property
 const TOL_RT: f64 = 1e-4;
 /// float agreement with the f64 reference (DESIGN C16-O)
-const TOL_REF: f64 = 1e-5;
+const TOL_REF: f64 = 4e-6;
 /// slack on "in range" for float results (DESIGN C16-O)
 const TOL_RANGE: f64 = 1e-6;
 
@@ -327,16 +327,16 @@ pub fn check_rgbf(c: &F3Case, obs: &mut Obs) -> Check {
     let el = (h[2] as f64 - rf[2]).abs();
     let es = (h[1] as f64 - rf[1]).abs() * w;
     let eh = circ(h[0] as f64, rf[0]) * 6.0 * chroma;
-    obs.max("float to_hsl vs f64 reference: l error (tolerance 1e-5)", el);
-    obs.max("float to_hsl vs f64 reference: s error x (1-|2l-1|) (tolerance 1e-5)", es);
-    obs.max("float to_hsl vs f64 reference: hue error x 6 x chroma (tolerance 1e-5)", eh);
+    obs.max("float to_hsl vs f64 reference: l error (tolerance 4e-6)", el);
+    obs.max("float to_hsl vs f64 reference: s error x (1-|2l-1|) (tolerance 4e-6)", es);
+    obs.max("float to_hsl vs f64 reference: hue error x 6 x chroma (tolerance 4e-6)", eh);
     ensure!(el <= TOL_REF, "f32-to-hsl-vs-reference", "rgb({r:?},{g:?},{b:?}).to_hsl() = hsl{h:?}: lightness differs from the reference {:.8}", rf[2]);
     ensure!(es <= TOL_REF, "f32-to-hsl-vs-reference", "rgb({r:?},{g:?},{b:?}).to_hsl() = hsl{h:?}: saturation differs from the reference {:.8}", rf[1]);
     ensure!(eh <= TOL_REF, "f32-to-hsl-vs-reference", "rgb({r:?},{g:?},{b:?}).to_hsl() = hsl{h:?}: hue differs from the reference {:.8}", rf[0]);
     // the library's HSL through the reference HSL->RGB must give the colour back (to_hsl alone, no cancellation)
     let via = ref_hsl_to_rgb(h[0] as f64, h[1] as f64, h[2] as f64);
     let ev = max3([0, 1, 2].map(|k| (via[k] - v[k] as f64).abs()));
-    obs.max("float to_hsl then f64 reference to_rgb: error (tolerance 1e-5)", ev);
+    obs.max("float to_hsl then f64 reference to_rgb: error (tolerance 4e-6)", ev);
     ensure!(
         ev <= TOL_REF,
         "f32-to-hsl-vs-reference",
@@ -409,7 +409,7 @@ pub fn check_hslf(c: &F3Case, obs: &mut Obs) -> Check {
         rf[1],
         rf[2]
     );
-    obs.max("float to_rgb vs f64 reference (tolerance 1e-5)", e);
+    obs.max("float to_rgb vs f64 reference (tolerance 4e-6)", e);
     // hue 1 is hue 0
     let at = |hh: f32| catch(|| hsl(hh, s, l).to_rgb().0);
     match (at(0.0), at(1.0)) {
